@@ -11,7 +11,7 @@ import pmlib
 CMD_PROPS = {
     "site": ["C20"], "term": ["C20"], "preset": ["C20", "C04"], "tpreset": ["C20"], "getsite": ["C20"], "copy": ["C20"],
     "dumplattice": ["C20", "C04"], "tpc": ["C13"], "index": ["C18"], "getindex": ["C18"], "getinfo": ["C18"],
-    "ham": ["C04"], "hshift": ["C04", "C03", "C09"], "symm": ["C07"], "states": ["C07"], "blockof": ["C07", "C17"], "innerof": ["C07", "C17"],
+    "ham": ["C04"], "hshift": ["C04", "C03", "C09"], "symm": ["C07"], "states": ["C07"], "blockof": ["C07", "C17"], "innerof": ["C07", "C17"], "fockof": ["C07", "C17"],
     "hprepare": ["C04", "C03"],
 }
 
@@ -122,7 +122,7 @@ def rand_amp(r, cplx):
 
 
 def add_random_terms(r, m, cplx=False, allow=("hop", "level", "coulombS", "coulombP", "szsz", "ss", "magnetization",
-                                               "user2", "user4", "pair", "spinflip_hop", "user6", "useralt")):
+                                               "user2", "user4", "pair", "spinflip_hop", "user6", "useralt", "dhop")):
     """append preset calls / user terms (with Hermitian conjugates) to the model"""
     sites = m.sites
     nops = r.range(1, 5) if not r.chance(1, 25) else 0      # now and then a lattice without any term (H = 0)
@@ -218,6 +218,17 @@ def add_random_terms(r, m, cplx=False, allow=("hop", "level", "coulombS", "coulo
             add_user_term(m, t.real if isinstance(t, complex) else t, fs)
             m.quadratic = False
             m.kinds.add("useralt")
+        elif kind == "dhop":
+            # density-assisted hopping next to plain hopping between the same two modes: TWO monomials of the Hamiltonian
+            # connect the same pair of Fock states (t1 c+_a c_b + t2 c+_a c_b n_k)
+            modes = [(l, o, z) for l, no, ns in sites for o in range(no) for z in range(ns)]
+            if len(modes) >= 3:
+                r.shuffle(modes)
+                a1, b1, k1 = modes[:3]
+                add_user_term(m, rand_amp(r, cplx), [(1,) + a1, (0,) + b1])
+                add_user_term(m, rand_amp(r, cplx), [(1,) + a1, (0,) + b1, (1,) + k1, (0,) + k1])
+                m.quadratic = False
+                m.kinds.add("dhop")
         elif kind == "user4":
             t = rand_amp(r, cplx)
             fs = []
@@ -539,6 +550,13 @@ def numeric_campaign(ctx, props, want, n_quick, n_thorough, max_modes_quick=4, m
                 m.kinds.add("stress_mode")
             if shift is not None:
                 m.kinds.add("energy_offset")
+            if r.chance(1, 4):
+                # a temperature scan in one process: the same objects' classes are first used at ANOTHER temperature
+                # (nothing that depends on beta may be remembered across objects)
+                beta0 = r.choice([b for b in betas if b != beta] or [beta * 2.0])
+                warm = observables_script(r, m, beta0, M, want=want, ngf=2, nchi=1, nsusc=1, ntriples=2)
+                s += warm
+                m.kinds.add("two_temperatures")
             s += observables_script(r, m, beta, M, want=want, ngf=ngf, nchi=(nchi if M <= 3 else 1), nsusc=nsusc,
                                     ntriples=(4 if M <= 3 else 2))
             if trunc:
